@@ -72,6 +72,8 @@ PY
 		echo "INCONCLUSIVE: libFuzzer stopped on $(basename "$a") (resource limit, not a verdict)"; [ $code -eq 0 ] && code=2; break
 	done
 fi
-echo "{\"property\":\"$PROP\",\"engine\":\"$ENG\",\"executions\":${execs:-0},\"edge_coverage\":${cov:-0},\"corpus_files\":$corpus,\"runs_per_job\":$RUNS,\"jobs\":$JOBS,\"seed\":$SEED,\"violation\":$code}" > "$ROOT/work/fuzz-$PROP-$ENG.json"
-echo "FUZZ $PROP/$ENG: executions=${execs:-0} cov=${cov:-0} corpus=$corpus violation=$code"
+viol=0; [ $code -eq 1 ] && viol=1
+inconc=false; [ $code -eq 2 ] && inconc=true
+echo "{\"property\":\"$PROP\",\"engine\":\"$ENG\",\"executions\":${execs:-0},\"edge_coverage\":${cov:-0},\"corpus_files\":$corpus,\"runs_per_job\":$RUNS,\"jobs\":$JOBS,\"seed\":$SEED,\"violation\":$viol,\"inconclusive\":$inconc}" > "$ROOT/work/fuzz-$PROP-$ENG.json"
+echo "FUZZ $PROP/$ENG: executions=${execs:-0} cov=${cov:-0} corpus=$corpus violation=$viol"
 exit $code
